@@ -4,6 +4,7 @@
    949309d in /repo; before it the model refuted idempotence for aggregating programs, see known_findings.json). *)
 From Coq Require Import List ZArith Bool.
 From AV Require Import Engine.Core Engine.Sem Engine.Eval Engine.Validate Engine.Naive Engine.Interface Engine.Main Engine.Rerun.
+From AV Require Import Engine.InterfaceAgg Engine.InterfaceInvariance Engine.EvalSpecAgg Engine.RerunAgg.
 Import ListNotations.
 
 (* a second run() on an unmodified program value changes nothing — not even the order of the rows *)
@@ -32,8 +33,16 @@ Proof. exact rerun_incremental. Qed.
 Theorem c13_run_depends_on_rows_only : forall I swap fuel pl st, run_plan I swap fuel pl st = run_plan I swap fuel pl (init_state (rows st)).
 Proof. exact run_plan_rows_only. Qed.
 
-(* PARTIAL: idempotence for programs WITH aggregation / negation and for lattice relations is not yet a theorem
-   (it follows the same way from c04_stratified_model; lattices are outside this model); both are exercised by the
-   tie (gen/props/c13.py: run;run on stratified programs). *)
+(* idempotence also holds with aggregation and negation (duplicate-free input, permutation-invariant aggregators) *)
+Theorem c13_idempotent_with_aggregates : forall (I : interp) swap arities P pl fuel fuel' F0 st1 st2,
+  arities_functional arities -> wf_facts arities F0 = true -> NoDup F0 -> agg_perm_invariant I ->
+  validate arities P pl = true ->
+  run_plan I swap fuel pl (init_state F0) = Some st1 ->
+  run_plan I swap fuel' pl st1 = Some st2 ->
+  rows st2 = rows st1.
+Proof. intros I swap. exact (rerun_idempotent_agg I swap (eval_variant_spec_agg I swap)). Qed.
 
-Print Assumptions c13_idempotent. Print Assumptions c13_incremental. Print Assumptions c13_run_depends_on_rows_only.
+(* PARTIAL: "equal lattice values" for lattice relations is not a theorem here (C03's model is separate); lattice
+   and BYODS programs are exercised by their own ties. *)
+
+Print Assumptions c13_idempotent. Print Assumptions c13_incremental. Print Assumptions c13_run_depends_on_rows_only. Print Assumptions c13_idempotent_with_aggregates.
